@@ -777,7 +777,10 @@ func (r *siteRig) genReq(id, site string) *sreq {
 		}
 	case cls == 8 && r.archive:
 		q.path = "/pub/"
-		q.archiveOf = []string{"zip", "tar"}[st.Draw(2)]
+		q.archiveOf = []string{"zip", "tar", ""}[st.Draw(3)]
+		if q.archiveOf == "" {
+			q.path = "/pub" // the directory without its slash: browse redirects to the listing
+		}
 		sc.mode = "static"
 	case cls == 6 && r.hasMime:
 		q.path = "/p/file.xyz"
@@ -1055,6 +1058,9 @@ func (r *siteRig) expectStatus(q *sreq) (status int, page string, known bool) {
 		if _, ok := r.static[q.path]; ok {
 			return 200, "", true
 		}
+		if r.archive && q.path == "/pub" {
+			return 301, "", true
+		}
 		return 404, "", true
 	}
 	if sc.panicAt == 0 {
@@ -1143,6 +1149,12 @@ func (r *siteRig) judge() {
 				if derr != nil || !validArchive(q.archiveOf, raw) {
 					c.Violate("C12/body-altered", "archive/"+q.archiveOf, "request %s (GET /pub/?archive=%s): answered 200 %s, but the %d body bytes are not a %s archive of the directory: %q", q.id, q.archiveOf, resp.Header.Get("Content-Type"), len(raw), q.archiveOf, trunc(raw, 120))
 				}
+			}
+			continue
+		}
+		if r.archive && q.path == "/pub" {
+			if resp.Status != 301 || !strings.HasSuffix(strings.SplitN(resp.Header.Get("Location"), "?", 2)[0], "/pub/") {
+				c.Violate("C12/status-differs", "want=301/browse-redirect", "request %s (%s /pub): the directory listing's redirect to /pub/ reached the client as status %d with Location %q (%s)", q.id, q.method, resp.Status, resp.Header.Get("Location"), r.dirSig())
 			}
 			continue
 		}
